@@ -27,8 +27,11 @@ CART_POINTS = [(x, y, z) for x in (1, -1, 2) for y in (1, -2, 3) for z in (-1, 2
 
 
 def near(a: Any, b: Any) -> bool:
-    d = sp.N(sp.sympify(a) - sp.sympify(b), 40)
-    return abs(d) < sp.Float("1e-25")
+    try:
+        d = sp.N(sp.sympify(a) - sp.sympify(b), 40)
+        return bool(abs(d) < sp.Float("1e-25"))
+    except TypeError:
+        return False  # free symbols left in a value that should be a number
 
 
 def vnear(a: Any, b: Any) -> bool:
@@ -177,6 +180,29 @@ def field_cases(system: str) -> list[tuple[str, str]]:
             out.append((f"field:cartesian->{system}:{ftxt}:{q}", "" if near(a, b) else
                 f"field {ftxt} takes {short(sp.N(a, 12))} at the Cartesian point but "
                 f"{short(sp.N(b, 12))} at the same point in {system}"))
+        # points given with fewer coordinates: the missing ones are zero
+        for p2 in ((sp.Rational(3, 2), -2), (sp.Rational(-1, 3), ), (2, sp.Rational(5, 7))):
+            full = tuple(p2) + (0, ) * (3 - len(p2))
+            want = fx.subs({xs: full[0], ys: full[1], zs: full[2]}, simultaneous=True)
+            try:
+                a = f_cart(CartesianPoint(*p2))
+            except Exception as ex:  # pylint: disable=broad-except
+                a = sp.nan
+            out.append((f"field-short-point:cartesian:{ftxt}:{p2}", "" if (a == want or near(a, want))
+                else f"field {ftxt} at the point {p2} (missing coordinates zero) takes {short(a)}, "
+                f"reference {short(want)}"))
+            if system == "cylindrical" and len(p2) == 2 and p2[0] > 0:
+                q2 = (p2[0], sp.pi / 5)
+                pos = R.position(system, q2 + (0, ))
+                want = fx.subs({xs: pos[0], ys: pos[1], zs: pos[2]}, simultaneous=True)
+                try:
+                    b = f_curv(PT(*q2))
+                    ok = near(b, want)
+                except Exception as ex:  # pylint: disable=broad-except
+                    b, ok = f"{type(ex).__name__}", False
+                out.append((f"field-short-point:{system}:{ftxt}:{q2}", "" if ok else
+                    f"field {ftxt} re-expressed in {system} takes {short(b)} at the point {q2} "
+                    f"(missing z zero), reference {short(sp.N(want, 12))}"))
         # and the other direction: a field written in curvilinear coordinates
         cp = R.position(system, (Q1, Q2, Q3))
         g_curv = ScalarField.from_expression(fx.subs({xs: cp[0], ys: cp[1], zs: cp[2]},
